@@ -540,6 +540,9 @@ Definition view_of (s : served) : view :=
   let q := sv_request s in
   mk_view (q_method q) (q_path q) (q_query q) (q_version q) (q_headers q) (q_authority q) (sv_body s).
 
+Definition result_view (o : outcome served) : outcome view :=
+  match o with Ok sv => Ok (view_of sv) | Err e => Err e | Panic => Panic end.
+
 (** The whole exchange as a function of the delivered bytes: head end, the parser on exactly
     the head, the body from what follows. *)
 Definition serve_spec (mode : N) (https : bool) (dh : option bytes) (max_len : nat) (limit : N) (ds : bytes)
